@@ -1,7 +1,6 @@
 package fasthttp
 
 import (
-	"errors"
 	"io"
 	"mime/multipart"
 )
@@ -19,21 +18,38 @@ import (
 var c35Created, c35Removed int
 var c35Forms map[*multipart.Form]int // form -> times removed
 
-var errC35Malformed = errors.New("c35: malformed multipart body")
-
-//verif:stub github.com/valyala/fasthttp.readMultipartForm
-func vstubReadMultipartForm(r io.Reader, boundary string, size, maxInMemoryFileSize int) (*multipart.Form, error) {
-	if size <= 0 {
-		return nil, errC35Malformed
+// The form is read with the real mime/multipart part reader (NextPart over
+// the real framed body), so the stream is consumed exactly as far as the real
+// ReadForm would consume it; only the storing of parts is replaced: a file
+// part stands for one temporary file.
+//
+//verif:stub (*mime/multipart.Reader).ReadForm
+func vstubReadForm(r *multipart.Reader, maxMemory int64) (*multipart.Form, error) {
+	f := &multipart.Form{Value: map[string][]string{}, File: map[string][]*multipart.FileHeader{}}
+	files := 0
+	for {
+		p, err := r.NextPart()
+		if err == io.EOF {
+			break
+		}
+		if err != nil {
+			return nil, err
+		}
+		data, err := io.ReadAll(p)
+		if err != nil {
+			return nil, err
+		}
+		if p.FileName() != "" {
+			f.File[p.FormName()] = append(f.File[p.FormName()], &multipart.FileHeader{Filename: p.FileName(), Size: int64(len(data))})
+			files++
+		} else {
+			f.Value[p.FormName()] = append(f.Value[p.FormName()], string(data))
+		}
 	}
-	body := make([]byte, size)
-	n, _ := io.ReadFull(r, body)
-	if n >= 3 && string(body[:3]) == "BAD" {
-		return nil, errC35Malformed
+	if files > 0 {
+		c35Created++
+		c35Forms[f] = 0
 	}
-	f := &multipart.Form{Value: map[string][]string{"k": {"v"}}, File: map[string][]*multipart.FileHeader{"f": {{Filename: "upload.bin", Size: int64(n)}}}}
-	c35Created++
-	c35Forms[f] = 0
 	return f, nil
 }
 
@@ -51,11 +67,15 @@ func vstubFormRemoveAll(f *multipart.Form) error {
 func vhC35TempFiles() {
 	c35Created, c35Removed = 0, 0
 	c35Forms = map[*multipart.Form]int{}
-	body := "GOODxxxx"
-	if vBool("malformedForm") {
-		body = "BADxxxxx"
+	body := "--b\r\nContent-Disposition: form-data; name=\"f\"; filename=\"u.bin\"\r\n\r\nDATA\r\n--b--\r\n"
+	malformed := vBool("malformedForm")
+	if malformed {
+		body = "--b\r\nContent-Disposition: form-data; name=\"f\"; filename=\"u.bin\"\r\n\r\nDATA\r\n--b" // no closing delimiter
 	}
-	first := "POST /upload HTTP/1.1\r\nHost: a\r\nContent-Type: multipart/form-data; boundary=b\r\nContent-Length: 8\r\n\r\n" + body
+	if vBool("bodyPoolLimit") {
+		SetBodySizePoolLimit(4, 4) // buffers larger than this are dropped instead of pooled
+	}
+	first := "POST /upload HTTP/1.1\r\nHost: a\r\nContent-Type: multipart/form-data; boundary=b\r\nContent-Length: " + c07Digits(len(body)) + "\r\n\r\n" + body
 	second := "GET /next HTTP/1.1\r\nHost: a\r\nConnection: close\r\n\r\n"
 	c := &vsSegConn{}
 	if vBool("oneSegment") {
@@ -66,7 +86,10 @@ func vhC35TempFiles() {
 	s := &Server{NoDefaultDate: true, NoDefaultServerHeader: true}
 	s.DisablePreParseMultipartForm = vBool("disablePreParse")
 	s.ReduceMemoryUsage = vBool("reduceMemory")
-	handlerMode := vChoose("handler", 4) // 0 ignore, 1 MultipartForm(), 2 MultipartForm() twice + FormFile-style access, 3 explicit RemoveMultipartFormFiles
+	s.StreamRequestBody = vBool("stream")
+	// 0 ignore, 1 MultipartForm(), 2 MultipartForm() twice, 3 explicit RemoveMultipartFormFiles,
+	// 4 MultipartFormWithLimit one byte below the body size, 5 ... exactly the body size
+	handlerMode := vChoose("handler", 6)
 	leftAtNext := -1
 	var got *multipart.Form
 	s.Handler = func(ctx *RequestCtx) {
@@ -85,6 +108,10 @@ func vhC35TempFiles() {
 		case 3:
 			got, _ = ctx.MultipartForm()
 			ctx.Request.RemoveMultipartFormFiles()
+		case 4:
+			got, _ = ctx.Request.MultipartFormWithLimit(len(body) - 1)
+		case 5:
+			got, _ = ctx.Request.MultipartFormWithLimit(len(body))
 		}
 		ctx.SetBodyString("uploaded")
 	}
@@ -99,8 +126,8 @@ func vhC35TempFiles() {
 	}
 	vAssert("every-form-was-removed", once)
 	vAssert("at-most-one-parse-per-request", c35Created <= 1)
-	malformed := body[0] == 'B'
-	if !malformed && (!s.DisablePreParseMultipartForm || handlerMode >= 1) {
-		vAssert("form-was-parsed-when-asked-for", c35Created == 1 && (handlerMode == 0 || got != nil))
+	if !malformed && (handlerMode == 1 || handlerMode == 2 || handlerMode == 5) {
+		vAssert("form-was-parsed-when-asked-for", c35Created == 1 && got != nil)
 	}
+	SetBodySizePoolLimit(-1, -1)
 }
